@@ -117,8 +117,9 @@ def check_existing_first_async(c, repo, f):
     c.need(ts, 'test of the existing_data() result not found')
     t0 = min(ts, key=lambda t: t.id)
     edge = 'true' if 'is not None' in norm(t0.ast) else 'false'
-    rets = [n for n in guard_region(g, t0, edge) if n.kind == 'stmt' and isinstance(n.ast, ast.Return) and is_name(n.ast.value, v)]
-    c.check(bool(rets), f, t0.ast, 'a match already in the pending text is returned without touching the transport', kind='path', tag='pending-wins')
+    nxt = [s2 for s2, l2 in t0.succ if l2 == edge]
+    okr = len(nxt) == 1 and nxt[0].kind == 'stmt' and isinstance(nxt[0].ast, ast.Return) and is_name(nxt[0].ast.value, v)
+    c.check(okr, f, t0.ast, 'a match already in the pending text (index 0 included) is returned without touching the transport', kind='path', tag='pending-wins')
     for n, k in cfg_nodes_with_call(f, lambda k: callee_last(k) in ('connect_read_pipe', 'resume_reading', 'wait_for', 'set_expecter')):
         ok1 = g.dominated_by(n, {en}, skip_labels=())[0] and g.dominated_by(n, {t0}, skip_labels=())[0]
         c.check(ok1, f, k, '%s() only after existing_data() found nothing' % callee_last(k), tag='existing-first:' + callee_last(k))
